@@ -8,6 +8,7 @@ R4 consumed-counter coherence (mark_used)
 R5 append position of raw file reads into the fusedev buffer
 R6 async siblings agree with the sync methods (cfg A)
 """
+import re
 from pyfbr import core, vf
 from rules import common
 
@@ -41,6 +42,7 @@ def run(ctx):
     ctx.run_rule("R3-split", r3_split, F)
     ctx.run_rule("R4-counters", r4_counters, F)
     ctx.run_rule("R5-append-position", r5_append, F, False)
+    ctx.run_rule("R7-commit", r7_commit, F)
     A = ctx.facts("A", required=False)
     if A is not None:
         ctx.run_rule("R6-async-siblings", r6_async, A)
@@ -237,8 +239,9 @@ def r3_space_check(ctx, F):
         v = vf.VF(b, inline_depth=0)
         r = vf.render(v.ret(), b, short=True, vfx=v)
         tag = adt.rsplit("::", 1)[-1]
-        conds = [vf.render(v.operand(b.term(bb)[1], bb, len(b.stmts(bb))), b, short=True) for bb in b.reachable() if b.term(bb)[0] == "switch"]
-        ok = any(t.startswith("Lt(") and "available_bytes(self)" in (vf.split_call(t) or ("", ["", ""]))[1][0] for t in conds) and "Err(" in r
+        # in guard normal form: the arm `available_bytes(self) < amount` yields Err, the complementary arm Ok(())
+        ok = re.search(r"Lt\(%s::available_bytes\(self\), .*?\) => Err\(" % tag, r) is not None and \
+            re.search(r"Le\(.*?, %s::available_bytes\(self\)\) => Ok\(\(\)\)" % tag, r) is not None
         ctx.check("R3-space-check", tag + "::check_available_space/refuses", ok,
                   "%s::check_available_space no longer refuses amounts larger than available_bytes(): `%s`" % (tag, r[:200]), loc=b.loc())
     # account_written(n) only after a check (fusedev): callers are the checked methods or closures of them
@@ -382,6 +385,45 @@ def r4_counters(ctx, F):
 
 
 # ------------------------------------------------------------------ R5
+
+def r7_commit(ctx, F):
+    """FuseDevWriter::commit sends exactly the non-empty parts (own buffer, then the split-off writer's buffer) in one system call:
+    nothing when both are empty, write(own) / write(other) when one is, writev([own, other]) when both are."""
+    b = F.method(FDW, "commit")
+    ctx.fn_seen(b)
+    vf.NOUPD[0] = True
+    vf.NOCAST[0] = True
+    try:
+        v = vf.VF(b, inline_depth=0)
+        own = "Vec::as_slice(self.buf)"
+        got = set()
+        for c in live_calls(b):
+            if c.name not in ("write", "writev") or not (c.fn or "").startswith("nix::"):
+                continue
+            a = [vf.render(x, b, short=True, vfx=v) for x in v.call_args(c)]
+            g = [(vf.render(x, b, short=True), l) for (x, l, u) in v.guards(c.bb)]
+            so = [l for (t, l) in g if t == "Vec::len(self.buf)"]
+            oo = [l for (t, l) in g if t.startswith("impl [T]::len(") and "other" in t]
+            if c.name == "writev":
+                parts = "own+other" if a[1].startswith("[IoSlice::new(%s), IoSlice::new(" % own) and "other" in a[1] else a[1][:80]
+            else:
+                parts = "own" if a[1] == own else ("other" if "other" in a[1] and own not in a[1] else a[1][:80])
+            got.add((c.name, a[0], parts, "own=%s" % ("empty" if so == [0] else "nonempty" if so == ["otherwise"] else so),
+                     "other=%s" % ("empty" if oo == [0] else "nonempty" if oo == ["otherwise"] else oo)))
+        want = {("write", "self.fd", "other", "own=empty", "other=nonempty"), ("write", "self.fd", "own", "own=nonempty", "other=empty"),
+                ("writev", "self.fd", "own+other", "own=nonempty", "other=nonempty")}
+        ctx.check("R7-commit", "arms", got == want,
+                  "FuseDevWriter::commit issues %s; required %s (data held by either writer must reach the descriptor)" % (sorted(got - want) or "fewer calls", sorted(want - got) or "nothing more"),
+                  loc=b.loc(), detail=str(sorted(got))[:200])
+        rt = vf.render(v.ret(), b, short=True, vfx=v)
+        ctx.check("R7-commit", "unbuffered-noop", rt.startswith("phi{!self.buffered => Ok(0) | self.buffered => "), "FuseDevWriter::commit must be a no-op only for an unbuffered writer", loc=b.loc())
+        o = vf.def_value(v, b, "o")
+        ot = vf.render(o, b, short=True, vfx=v) if o is not None else ""
+        ctx.check("R7-commit", "other-is-the-split-writer", "Vec::as_slice(some(other)@FuseDev.0.buf)" in ot, "FuseDevWriter::commit: the second part is not the other writer's buffer: `%s`" % ot[:160], loc=b.loc())
+    finally:
+        vf.NOUPD[0] = False
+        vf.NOCAST[0] = False
+
 
 def r5_append(ctx, F, is_async):
     """Raw reads into the fusedev buffer: pointer = buf.as_mut_ptr().add(buf.len()), size = the checked count."""
